@@ -245,6 +245,12 @@ class SimPool:
     # ------------------------------------------------------------------ map family
     def _run_chunks(self, func: Callable, iterable: Iterable, mapper: Callable, chunksize: int | None,
                     ordered: bool = True) -> list:
+        from . import simthreads
+        with simthreads.no_preempt():  # process images are swapped in and out: not a point to park a simulated thread
+            return self._run_chunks_now(func, iterable, mapper, chunksize, ordered)
+
+    def _run_chunks_now(self, func: Callable, iterable: Iterable, mapper: Callable, chunksize: int | None,
+                        ordered: bool = True) -> list:
         if self._closed:
             raise ValueError("Pool not running")
         sim = self.sim
